@@ -176,7 +176,7 @@ fn serde_case(bytes: [u8; 32], rep: &mut Report) {
 }
 
 pub fn run(args: &Args) -> Report {
-    let n_random = args.n(60_000, 3_000_000);
+    let n_random = args.n(60_000, 20_000_000);
     // (1) every byte value at every position + random hashes
     let rep1 = run::run_cases(args, 14, 32 * 256 + n_random, |idx, rng, rep| {
         let bytes = if idx < 32 * 256 {
